@@ -198,8 +198,6 @@ KNOWN = [
   'query($p: String = "zz") { getHumans { name(prefix: $p) } }', {}, None),
  ("KF-C01-12", "op.variableNamedId", "a client variable named id collides with the stitched $id of child steps",
   'query($id: String) { getAnimals { owner { name(prefix: $id) } } }', {"id": "pp"}, None),
- ("KF-C01-13", "op.aliasEqualsSiblingName", "a field whose alias equals the name of an earlier sibling is dropped",
-  '{ getHumans { x: name name: nick } }', None, None),
  ("KF-C01-14", "op.aliasIsHelperName", "a field aliased as id/__typename conflicts with the stitching helper of the same key",
   '{ getHumans { id: name phone } }', None, None),
  ("KF-C01-15", "op.idAliased", "an aliased id makes the planner believe the helper id is present",
@@ -318,7 +316,6 @@ CASES["known/KF-C15-1.json"]["gate"] = "remote.repeatableDirective"
 
 C16_KNOWN = [
  ("KF-C16-1", "op.directives", "@skip/@include on introspection selections are ignored", '{ __schema { queryType { name kind @skip(if: true) } } }'),
- ("KF-C16-2", "op.aliasEqualsSiblingName", "introspection: a field whose alias equals the name of an earlier sibling is dropped", '{ __type(name: "Query") { x: name name: kind } }'),
  ("KF-C16-3", "op.duplicateResponseKey", "introspection: the same response key selected twice keeps only the first sub-selection", '{ __schema { queryType { name } queryType { kind } } }'),
 ]
 for kid, gate, title, q in C16_KNOWN:
@@ -368,6 +365,8 @@ CASES["regress/KF-C18-4.json"] = teardown_case("upstream-open", [("client", "sta
 CASES["regress/KF-C18-5.json"] = teardown_case("frame", [("client", "start", 0, True), ("client", "start", 1, True), ("upstream", "event", 0, False), ("upstream", "event", 1, True),
     ("upstream", "event", 0, False), ("upstream", "event", 1, True), ("upstream", "event", 1, False), ("upstream", "event", 0, True)], nsubs=2, barriers=["se.Listen.beforeWrite"])
 CASES["regress/KF-C18-5.json"]["case"]["header_pause_us"] = 400
+CASES["regress/KF-C01-13.json"] = exec_case("C01", "data-mismatch", '{ getHumans { x: name name: nick } }')
+CASES["regress/KF-C16-2.json"] = exec_case("C16", "differs", '{ __type(name: "Query") { x: name name: kind } }')
 
 if __name__ == "__main__":
     import sys
